@@ -72,6 +72,11 @@ func (t *tr) lookupOutParam(callee string) (OutParam, bool) {
 
 type FuncSpec struct {
 	Auto      bool              // inferred spec of a helper found by autofollow.go (emitted as `@[simp] def`)
+	// (C06, round 4) OracleVars: variables that hold a STATE-PASSING ORACLE (the storage whose answers may differ from call to
+	// call): every method call `v.M(args)` on such a variable (or on a type-assertion alias `a, ok := v.(T)` of it) must be an
+	// error-checked call, and its Lean twin returns the oracle's next state next to the value: `| .ok (x, v) =>`.  A call in
+	// any other position is UNSUPPORTED (the state change would be lost).  translate_c06o.go.
+	OracleVars []string
 	AutoOwn   bool              // a helper that autofollow.go has already emitted into ANOTHER namespace (a second model of the same Go function) is emitted into this group's namespace as well
 	AutoCtx   []string          // model-only context parameters (`(o : SessOracles)`) that helpers found by autofollow.go inherit and are called with
 	File      string            // path relative to repo root
@@ -314,6 +319,8 @@ type tr struct {
 	continueK   []cont               // LoopStyle "state": what `continue` means inside the body of the fold
 	ctl         []ctlFrame           // LoopStyle "ctl": the enclosing control loops (innermost last)
 	syn         map[string]string    // PtrSynonyms: x -> y for `x := (*T)(y)`
+	oracleCalls map[*ast.CallExpr]bool // OracleVars: method calls on an oracle variable seen by `call` ...
+	oracleBound map[*ast.CallExpr]bool // ... and those whose next state was bound by okPattern
 }
 
 // ctlFrame: one enclosing GoX.loopCtl loop: its state tuple and the depth of switch statements at its entry
@@ -901,6 +908,18 @@ func isCtxArg(a ast.Expr) bool {
 
 // okPattern gives the binder for the success value of a call, taking out-params into account.
 func (t *tr) okPattern(call ast.Expr, v string) string {
+	if root, c := t.oracleCall(call); root != "" { // translate_c06o.go (FuncSpec.OracleVars)
+		t.oracleBound[c] = true
+		inner := t.okPattern0(call, v)
+		if inner == "_" || inner == "" {
+			return root
+		}
+		return "(" + inner + ", " + root + ")"
+	}
+	return t.okPattern0(call, v)
+}
+
+func (t *tr) okPattern0(call ast.Expr, v string) string {
 	c, ok := call.(*ast.CallExpr)
 	if !ok {
 		return v
@@ -984,6 +1003,11 @@ func (t *tr) call(c *ast.CallExpr) string {
 		fun = ix.X
 	}
 	full := exprString(fun)
+	if t.spec.OracleVars != nil {
+		if root, oc := t.oracleCall(c); root != "" {
+			t.oracleCalls[oc] = true
+		}
+	}
 	if _, ok := t.spec.InOutVal[full]; ok {
 		return t.inOutCall(c, full) // translate_c06.go
 	}
@@ -1830,6 +1854,9 @@ func (t *tr) block(stmts []ast.Stmt, k cont) string {
 				tn := typeAssertName(ta.Type)
 				v, okv := exprString(x.Lhs[0]), exprString(x.Lhs[1])
 				e := t.expr(ta.X)
+				if t.oracleAlias(v, ta.X) { // translate_c06o.go: the alias IS the oracle variable from here on
+					return "let " + okv + " := (" + e + ").is_" + tn + ";\n" + t.pad() + rest()
+				}
 				return "let " + v + " := " + e + ";\n" + t.pad() + "let " + okv + " := (" + e + ").is_" + tn + ";\n" + t.pad() + rest()
 			}
 			// a, b := f(...)   two plain results (no error): tuple destructuring
@@ -2644,6 +2671,7 @@ func translateFunc(fset *token.FileSet, fd *ast.FuncDecl, spec *FuncSpec) (strin
 	}
 	t := &tr{spec: spec, fset: fset, indent: 1, fresh: map[string]bool{}, declared: map[string]bool{}, rt: "(" + rt + ")",
 		varTypes: map[string]string{}, aliases: map[string][2]string{}}
+	t.oracleCalls, t.oracleBound = map[*ast.CallExpr]bool{}, map[*ast.CallExpr]bool{}
 	t.funcVals = map[string]bool{}
 	t.declareFields(fd.Recv)
 	t.declareFields(fd.Type.Params)
@@ -2658,6 +2686,7 @@ func translateFunc(fset *token.FileSet, fd *ast.FuncDecl, spec *FuncSpec) (strin
 	}
 	inits := t.initResults(fd) // "" unless spec.InitResults (translate_ext.go)
 	body := t.block(fd.Body.List, k)
+	body = t.oracleCheck(body) // translate_c06o.go; the identity unless spec.OracleVars is set
 	if strings.Contains(body, handlerEndMarker) {
 		t.unsup = append(t.unsup, "a path reaches the end of the handler without writing a response")
 	}
